@@ -26,6 +26,7 @@ func main() {
 	if verifDir == "" {
 		verifDir = "/verif"
 	}
+	sim.LoadKnownSigs(verifDir)
 	switch os.Args[1] {
 	case "list":
 		for id := range sim.Registry {
